@@ -647,3 +647,31 @@ def implied_facts(f, node, stop=None):
                 elif isnone(v.orelse) and not isnone(v.body):
                     add(v.test, True)
     return out
+
+
+def embed(ctx, prop, fn, rule, label, why, where=""):
+    """Run `fn(sub_ctx)` - a rule of property `prop` - as an obligation of the current property under the id `rule`:
+    its discharged obligations, findings and not-understood constructs are relayed (prefixed with `label`)."""
+    from .. import report as _report
+    sub = _report.Ctx(prop, ctx.repo, ctx.tier, ctx.data)
+    try:
+        fn(sub)
+    except AnalysisError as e:
+        ctx.unknown(rule, label, where, str(e)[:300])
+        for fd in sub.findings:
+            ctx.bad(rule, "%s: %s" % (label, fd.construct), fd.where, why + ": " + fd.detail, fd.scope, fd.construct)
+        return sub
+    for ob in sub.obligations:
+        if ob["status"] in ("violated", "not-understood"):
+            continue
+        new_ob = dict(ob)
+        new_ob["rule"] = rule
+        new_ob["instance"] = "%s: %s" % (label, ob["instance"])
+        ctx.obligations.append(new_ob)
+    for fd in sub.findings:
+        ctx.bad(rule, "%s: %s" % (label, fd.construct), fd.where, why + ": " + fd.detail, fd.scope, fd.construct)
+    for u in getattr(sub, "unknowns", []):
+        ctx.unknown(rule, label, where, u)
+    ctx.functions |= sub.functions
+    ctx.files |= sub.files
+    return sub
